@@ -36,7 +36,10 @@ CLAIMS["C03"] = ("other", "interprocedural taint (unprotected guards) + must-pas
 CLAIMS["C07"] = ("other", "null-check contradiction rule (value-chain path search) + private-target rule over MIR",
     "Clauses only: (T1) every value loaded from a nullable link of the structure is null-tested on every path before it is dereferenced "
     "(so an iterator or reader cannot fault on a transiently empty tree bin or list end); (T2) resize, treeify and untreeify never write a "
-    "link of a node that other threads can reach, so an iterator standing inside an old bin list sees it intact. Both are necessary for weak "
+    "link of a node that other threads can reach, so an iterator standing inside an old bin list sees it intact; (T3) the traverser's index "
+    "arithmetic and its save/restore frames (every pushed frame has table, index and length set); (T4) traversals start on the current table; "
+    "(T5) a non-null successor, the first node of a tree bin and the head of a list bin are always yielded, whatever kind of entry they are; "
+    "(T6) the links of a node being removed are not written. All are necessary for weak "
     "consistency. Not decided: termination and exactly-once yield across nested resizes (index arithmetic over run-time table lengths), and "
     "'never yields a pair that was not in the map'.",
     "DESIGN.md §4 C07", TRUST + " Four reviewed T1 exceptions are frozen by (function, field) with their invariant in vf/rules_c07.py.")
@@ -46,7 +49,9 @@ CLAIMS["C14"] = ("other", "affine abstract interpretation over MIR + who-may-cal
     "RMW left in memory (so removals never look like growth); capacity rounding is min(2^30, next_pow2(1.5c+1)) in both presize paths and "
     "every published threshold is exactly L - floor(L/4) of the new length L (tables of 1 and 2 bins included); resizes are initiated only by add_count (behind the hint test and count >= "
     "threshold) and try_presize (reserve, or an overfull bin in a table shorter than 64); initiation is guarded by len < 2^30; the table "
-    "pointer is only ever replaced by a fresh or doubled table; the constants are as stated; capacity 0 allocates nothing; reserve(additional) presizes for len() + additional. Not decided: "
+    "pointer is only ever replaced by a fresh or doubled table; the constants are as stated; capacity 0 allocates nothing; reserve(additional) presizes for len() + additional; "
+    "treeify_bin (which doubles a small table) is called only by an inserting operation; add_count leaves its resize loop only with count < size_ctl or for a reason "
+    "independent of the count and of the resize hint (so no insert returns with the count at or above the threshold for a removal to act on). Not decided: "
     "'holds c well-distributed entries' (hash distribution) and power-of-two lengths (Q3, under C05).",
     "DESIGN.md §4 C14", TRUST + " x >> k is modelled as x/2^k (exact for the power-of-two lengths it is applied to).")
 
@@ -54,7 +59,7 @@ CLAIMS["C19"] = ("other", "panic-site reachability + delegation (who-may-call) r
     "Clauses: (V1) in the serde visitors no panic-family call is reachable after input has been pulled from the deserialiser, so a "
     "repeated key or element yields a value, not a panic; (V2) the visitors build the collection through exported, guard-checked functions "
     "with the new collection's own guard; (V3) the rayon impls only delegate to exported functions and sibling impls, with a per-worker guard "
-    "of the same map; (V4) every entry pulled from the deserialiser reaches an insert before the next pull or the return. Not decided: serialise/deserialise round-trip equality and 'same key set as sequential insertion' (run-time values).",
+    "of the same map; (V4) every entry pulled from the deserialiser reaches an insert before the next pull or the return; (V5) no filtering, deduplicating, truncating or searching operation stands between the input and the insert in the rayon and serde entry points. Not decided: serialise/deserialise round-trip equality and 'same key set as sequential insertion' (run-time values).",
     "DESIGN.md §4 C19", TRUST + " serde/rayon adaptor internals are outside the analysis.")
 
 CLAIMS["C01"] = ("other", "MIR path rules: lock-region dataflow, edge dominance, must-pass-through, delegation rule",
@@ -68,13 +73,13 @@ CLAIMS["C01"] = ("other", "MIR path rules: lock-region dataflow, edge dominance,
 CLAIMS["C08"] = ("other", "MIR region rules (callback, read and write inside one validated lock region) + signature predicate",
     "The lock-based atomicity argument of compute_if_present, on both arms and every path: callback only after head re-validation inside "
     "the bin-lock region; the value it receives is loaded inside that region; the write applying its result happens before the guard is "
-    "dropped, for Some and for None; FnOnce bound on every facade. Together with C01-L1/L2 (all other writers of the bin take the same "
+    "dropped, for Some and for None; FnOnce bound on every facade; every writer of a bin (not only compute_if_present) re-validates under the lock and carries nothing read before it into the section. Together with C01-L1/L2 (all other writers of the bin take the same "
     "lock) nothing can take effect on the key between the read and the write. Not decided: concrete racing histories.",
     "DESIGN.md §4 C08", TRUST)
 CLAIMS["C13"] = ("other", "MIR argument-provenance and edge-dominance rules",
     "Premises of compare-and-remove: retain hands replace_node the very value pointer the predicate saw (Some), retain_force hands None; "
     "replace_node loads the stored pointer under the validated bin lock, compares by pointer identity, and unlink/retire are dominated "
-    "by the true edge; predicates run under no lock. Not decided: equality with std retain on concrete histories.",
+    "by the true edge; predicates run under no lock; the retain / retain_force methods of the reference wrappers and of the set forward to the map method of the same name. Not decided: equality with std retain on concrete histories.",
     "DESIGN.md §4 C13", TRUST)
 CLAIMS["C18"] = ("other", "MIR unwind-edge analysis (cleanup paths, drop flags by reaching definitions) + call-graph effect rule",
     "Whole structural content: every callback that runs while a bin lock is (or may be) held unwinds through the Drop of a lock guard on "
@@ -127,8 +132,8 @@ CLAIMS["C11"] = ("other", "lock-order graph over the resolved call graph + acqui
 CLAIMS["C05"] = ("other", "ESP path-sensitive typestate over MIR + provenance (power-of-two) analysis",
     "Clauses: the entry count is adjusted exactly once per link (put: won empty-bin CAS, append, tree insert) and per unlink "
     "(compute_if_present, replace_node; clear per walked node), on every feasible path -- infeasible paths pruned by tracking the flags the "
-    "code branches on; one finisher publishes a resize and clears the resizing state; every table length has power-of-two provenance; transfer splits a bin by the bit hash & n into index i (zero half) and i + n. "
-    "Not decided: iteration = lookup, entry placement (index i vs i+n), absence of duplicate keys, 'no forwarding marker left behind'.",
+    "code branches on; one finisher publishes a resize and clears the resizing state; every table length has power-of-two provenance; transfer splits a bin by the bit hash & n into index i (zero half) and i + n; the traverser yields every successor / tree-bin first node / list head that is there (Q8 = T5 of C07). "
+    "Not decided: iteration = lookup as a whole, entry placement (index i vs i+n), absence of duplicate keys, 'no forwarding marker left behind'.",
     "DESIGN.md §4 C05", TRUST + " ESP tracks the named bool/Option flag locals of each body; an untracked correlation would show up as a reported path.")
 
 CLAIMS["C04"] = ("other", "ownership typestate over MIR: must-consume rules + ESP path-sensitive typestate",
